@@ -14,6 +14,7 @@
   * `d2ir/d2ir.go: Map.createEdge` keyword checks → `edgeKeyword` / `edgeKeywordOld`
       the index found in the *resolved* edge path was used to index the *original* key path.
   * `d2ir/d2ir.go: EdgeID.resolve` underscore loop → `resolve` / `resolveOld`
+  * `d2graph/d2graph.go: Object.newObject` on an object whose `Children` map is nil → `newObject` / `newObjectOld`
   * `d2compiler/compile.go: compiler.compileMap` class application → `applyClass` / fuel model of the old
       unguarded recursion; the class stack discipline.
   * `d2ir/import.go: pushImportStack / __import` → `importWalk`: the stack holds pairwise distinct paths, the
@@ -26,6 +27,7 @@ inductive Crash where
   | indexRange       -- xs[i] with i ≥ len(xs) or i < 0
   | nilDeref         -- method call / field read through a nil pointer or nil interface
   | stackOverflow    -- unbounded recursion (kills the process, not recoverable)
+  | nilMapWrite      -- assignment to an entry of a nil map
 deriving Repr, BEq, DecidableEq
 
 abbrev Bytes := List UInt8
@@ -307,6 +309,15 @@ def iterBoth (f : UPath → Except Crash UPath) : Nat → UPath → UPath → Ex
 def resolveOld (s d : UPath) : Except Crash (UPath × UPath) := iterBoth stripOld (max (countUnderscores s) (countUnderscores d)) s d
 def resolve (s d : UPath) : Except Crash (UPath × UPath) := iterBoth strip (max (countUnderscores s) (countUnderscores d)) s d
 
+/-! ### d2graph `Object.newObject` under a class / sql_table object -/
+
+/-- `obj.Children[id] = child`: `compileClass` / `compileSQLTable` leave `obj.Children = nil`, and
+    `compileEdge` re-creates the scope object of an edge with `Root.EnsureChild(BoardIDA(scope))` -/
+def newObjectOld (childrenNil : Bool) : Except Crash Unit := if childrenNil then .error .nilMapWrite else .ok ()
+
+/-- current: the map is re-created when nil -/
+def newObject (_childrenNil : Bool) : Except Crash Unit := .ok ()
+
 /-! ### class application (d2compiler `compileMap` → `GetClassMap` → `compileMap`) -/
 
 /-- `classes`: name ↦ the class names its own `class:` field lists -/
@@ -326,20 +337,29 @@ def applyClassOld (env : ClassEnv) : Nat → String → Except Crash Nat
         | _, .error e => .error e
         | .ok a, .ok b => .ok (a + b)) (.ok 1)
 
-/-- current: a class that is already being applied (on `classStack`) is not entered again.
-    Returns the number of class maps applied.  `fuel` is only the termination device: `applyClass_fuel_enough`
-    shows `env.length + 1` always suffices, so no run reaches the `stackOverflow` branch. -/
-def applyClass (env : ClassEnv) : Nat → List String → String → Except Crash Nat
+/-- Guarded recursion over a finite set of keys: a key that is already on the stack is not entered again (it
+    contributes `hit`), a key without an entry contributes 0, an entered key contributes `node` plus its references.
+    `fuel` is only the termination device: `guardedWalk_fuel_enough` shows `env.length + 1` always suffices, so no run
+    reaches the `stackOverflow` branch. -/
+def guardedWalk (hit node : Nat) (env : ClassEnv) : Nat → List String → String → Except Crash Nat
   | 0, _, _ => .error .stackOverflow
   | fuel + 1, stack, c =>
-    if stack.contains c then .ok 0 else
+    if stack.contains c then .ok hit else
     match env.refs c with
     | none => .ok 0
     | some rs =>
-      rs.foldl (fun acc r => match acc, applyClass env fuel (c :: stack) r with
+      rs.foldl (fun acc r => match acc, guardedWalk hit node env fuel (c :: stack) r with
         | .error e, _ => .error e
         | _, .error e => .error e
-        | .ok a, .ok b => .ok (a + b)) (.ok 1)
+        | .ok a, .ok b => .ok (a + b)) (.ok node)
+
+/-- current class application: a class that is already being applied (on `classStack`) is not entered again.
+    Returns the number of class maps applied. -/
+def applyClass (env : ClassEnv) : Nat → List String → String → Except Crash Nat := guardedWalk 0 1 env
+
+/-- `__import` → `compileMap` → `_import` …: `env` maps a file to the files it imports; a path already on the import
+    stack is refused with "detected cyclic import chain".  Returns the number of refusals. -/
+def importWalk (files : ClassEnv) : Nat → List String → String → Except Crash Nat := guardedWalk 1 0 files
 
 /-! ### import stack (d2ir `pushImportStack`) -/
 
